@@ -27,7 +27,7 @@ KIND = [
     ("decreases", "dec"), ("terminat", "dec"), ("shift", "shift"),
 ]
 
-OBL_RE = re.compile(r"//\s*OBL:\s*([A-Za-z0-9_.\-]+)")
+OBL_RE = re.compile(r"//\s*OBL:\s*([A-Za-z0-9_.\-]+(?:\s+C\d+\.[A-Za-z0-9_.\-]+)*)")
 OBLG_RE = re.compile(r"//\s*OBLG:\s*([A-Za-z0-9_.\-]+)")
 
 
@@ -159,13 +159,14 @@ def classify(g, gen_file, res, unit_prop):
                 tag = "%s.%s.proof.%s@%s:%d" % (unit_prop, g.unit, kind, site[1], site[2])
             else:
                 tag = "%s.%s.unlocated.%s" % (unit_prop, g.unit, kind)
-        prop = tag.split(".", 1)[0] if re.match(r"C\d+\.", tag) else unit_prop
-        failures.append({
-            "tag": tag, "property": prop, "kind": kind, "message": msg,
-            "site": ({"file": site[1], "line": site[2], "text": site[3] if len(site) > 3 else None}
-                     if site else None),
-            "rendered": d.get("rendered", ""),
-        })
+        for one in (tag.split() if re.match(r"C\d+\.\S+(\s+C\d+\.\S+)+$", tag) else [tag]):
+            prop = one.split(".", 1)[0] if re.match(r"C\d+\.", one) else unit_prop
+            failures.append({
+                "tag": one, "property": prop, "kind": kind, "message": msg,
+                "site": ({"file": site[1], "line": site[2], "text": site[3] if len(site) > 3 else None}
+                         if site else None),
+                "rendered": d.get("rendered", ""),
+            })
     if "crash" in res:
         undecided.append(res["crash"])
     out = res.get("out") or {}
@@ -201,7 +202,8 @@ def tags_in(g):
     tags = []
     for ln in g.text.split("\n"):
         for m in OBL_RE.finditer(ln):
-            tags.append((m.group(1), ln.split("//")[0].strip()))
+            for one in m.group(1).split():
+                tags.append((one, ln.split("//")[0].strip()))
     return tags
 
 
